@@ -47,10 +47,12 @@ def parsePos (pos : Str) : Except PErr (Nat × Str) :=
     | none => .error .valueError
   | _ => .error .valueError
 
-/-- `pos_to_span(pos)` for a non-empty list: line of the first, line of the last, path of the first. -/
+/-- `pos_to_span(pos)` for a non-empty list: the lines of the first and of the last capture, ORDERED
+(the last captured position follows the first one in the flat AST, not necessarily in the source),
+and the path of the first. -/
 def posToSpan (first : Str) (last : Str) : Except PErr Span3 :=
   match parsePos first, parsePos last with
-  | .ok (s, path), .ok (e, _) => .ok (s, e, path)
+  | .ok (s, path), .ok (e, _) => .ok (min s e, max s e, path)   -- `sorted((int(start), int(end)))` (44b0b15)
   | _, _ => .error .valueError
 
 def colon (a b : Str) : Str := a ++ ':' :: b
